@@ -246,6 +246,8 @@ def random_world(rng):
             certs[n]['sig'] = 'k' + rng.choice(roots + cn)
         elif y < 0.16:
             certs[n]['kl'] = 'none'
+        elif y < 0.20:
+            certs[n]['sig'] = rng.choice(['hmac', 'unknownsig'])
     # a second certificate of the key name of C1 / C2 (other issuer component): forged, or not retrievable
     twin = {}
     for base in ('C1', 'C2'):
@@ -268,6 +270,8 @@ def random_world(rng):
             pkts[p]['sig'] = 'k' + rng.choice(roots + cn)
         elif y < 0.18:
             pkts[p] = {'kl': 'none', 'sig': rng.choice(['digest', pkts[p]['sig']])}
+        elif y < 0.24:
+            pkts[p]['sig'] = rng.choice(['hmac', 'unknownsig'])     # names the right certificate, unverifiable signature type
         elif pkts[p]['kl'] + 'b' in twin and y < 0.5:
             pkts[p]['kl'] += 'b'                  # signed by the same key, names the other certificate of that key name
     rts = {'two': ['root', 'oproot'], 'twin': ['root', 'root2']}.get(sch, ['root'])
@@ -393,6 +397,16 @@ def judge(ctx, recs, tag, forced):
 
 # ------------------------------------------------------------------ stage A
 
+def timed_run(cfgp, **kw):
+    """tlc.run measures with time.time(), which a Session of stage B (running beside stage A) replaces by the
+    virtual clock: measure the wall time here with a clock nobody patches."""
+    import time
+    t = time.perf_counter()
+    r = tlc.run('TrustChain', cfgp, **kw)
+    r.wall = time.perf_counter() - t
+    return r
+
+
 def stage_a(ctx):
     from concurrent.futures import ThreadPoolExecutor
     workers = ctx.pick(4, 8)
@@ -419,7 +433,7 @@ def stage_a(ctx):
 
     def one(job):
         name, cfgp, cov, heavy = job
-        return job, tlc.run('TrustChain', cfgp, workers=workers if heavy else 1, heavy=heavy, coverage=cov, tag='c14a')
+        return job, timed_run(cfgp, workers=workers if heavy else 1, heavy=heavy, coverage=cov, tag='c14a')
     with ThreadPoolExecutor(max_workers=ctx.pick(3, 2)) as ex:
         res = list(ex.map(one, jobs))
     for (name, cfgp, cov, heavy), r in res:
@@ -446,7 +460,7 @@ def stage_a(ctx):
         small.append(('deviation', d, dp))
 
     def two(job):
-        return job, tlc.run('TrustChain', job[2], workers=2, heavy=False, tag='c14s')
+        return job, timed_run(job[2], workers=2, heavy=False, tag='c14s')
     with ThreadPoolExecutor(max_workers=4) as ex:
         res = list(ex.map(two, small))
     for (kind, what, _), r in res:
@@ -471,10 +485,20 @@ def run(ctx):
                        'certificate validity periods and revocation are outside the property']
     pool = KeyPool()
     cache = {}
-    t0 = time.time()
+    t0 = time.perf_counter()
+    a_thread, a_err = None, []
     if 'A' in ctx.stages:
-        stage_a(ctx)
-        ctx.note('stage A wall %.0fs' % (time.time() - t0))
+        # stage A is TLC subprocesses only: it runs beside stages B and C
+        import threading
+
+        def run_a():
+            try:
+                stage_a(ctx)
+                ctx.note('stage A wall %.0fs (beside B and C)' % (time.perf_counter() - t0))
+            except BaseException as e:  # noqa
+                a_err.append(e)
+        a_thread = threading.Thread(target=run_a)
+        a_thread.start()
     t1 = time.time()
     forced = ([], ALL_DEVS)
     if 'B' in ctx.stages or 'C' in ctx.stages:
@@ -492,8 +516,10 @@ def run(ctx):
         has, unk = forced
         kts = ['ec'] * 9 + ['rsa'] if ctx.quick else ['ec'] * 5 + ['rsa']
         stage_b_many(ctx, [
-            # every world (depth, deviation, link), one validation at a time, both instances, good and bad anchors
-            ('main', consts(INSTS2, ctx.pick(1, 2), ctx.pick('W3', 'W4'), unk, has), kts, ctx.pick(200, 8000)),
+            # every world (depth, deviation, link) x every packet, one instance anchored at RA: all paths
+            ('links', consts(['v1'], 1, ctx.pick('W3', 'W4'), unk, has, anchors='MCAnchorsGood'), kts, None),
+            # ... and with both instances, good and bad anchors
+            ('main', consts(INSTS2, ctx.pick(1, 2), ctx.pick('W3', 'W4'), unk, has), kts, ctx.pick(120, 8000)),
             # orders / interleavings of up to 3 validations by two instances on a few worlds
             ('orders', consts(INSTS2, ctx.pick(2, 3), 'WOrd', unk, has, anchors='MCAnchorsGood'), ['ec'], ctx.pick(100, 5000)),
             # fetch fault, Heal, then the same / another packet of the chain again, on the same and on the other instance
@@ -526,6 +552,10 @@ def run(ctx):
         ctx.traces += len(recs)
         ctx.evaluations += sum(len(r['ev']) for r in recs)
         ctx.note('stage C wall %.0fs' % (time.time() - t2))
+    if a_thread is not None:
+        a_thread.join()
+        if a_err:
+            raise a_err[0]
 
 
 def replay(ctx, path):
